@@ -215,6 +215,9 @@ GRAPHS = {
     # callbacks that are callables without a __name__ (functools.partial on odd, a callable object on even dataset ids):
     # a backend's failure report must not depend on what the graph it was handed looks like when printed
     "callables": directed.prog(DS(2), d1={"args": [["a", O("A", dk="const", dv=0)]], "callback": "c2"}, d2={"args": [["x", DS(1)], ["b", O("B", dk="const", dv=0)]], "callback": "c2"}),
+    # option names that are string prefixes of one another (A / AB, L.1 / L.10): what keeps two entries of a store apart
+    "prefix-named": directed.prog(DS(2), d1={"args": [["a", O("A", dk="const", dv=0)], ["ab", O("AB", dk="const", dv=0)]]},
+                                  d2={"args": [["x", DS(1)], ["l1", O("L.1", dk="const", dv=None)], ["l10", O("L.10", dk="const", dv=None)]]}),
     "diamond": directed.prog(DS(4), d1={"args": [["a", O("A", dk="const", dv=0)]]}, d2={"args": [["x", DS(1)]]}, d3={"args": [["x", DS(1)], ["b", O("B", dk="const", dv=0)]]},
                              d4={"args": [["l", DS(2)], ["r", DS(3)]]}),
     "overload": directed.prog(DS(1), d1={"args": [["a", O("A", dk="const", dv=0)]], "dispatch": "D", "overloads": [["x", {"args": [["b", O("B", dk="const", dv=1)]]}], ["y", {"expr": O("A", dk="const", dv="ya")}],
@@ -233,6 +236,7 @@ HISTORIES = [
     [{}, {"A": 1, "B": 2}, {}, {"A": 1, "B": 2}, {"B": 2}],
     [{"D": "x"}, {"D": "y"}, {"D": "x", "B": 5}, {"D": 3}, {"D": "z"}, {"D": None}],
     [{"B": 5}, {"A": 1}, {"B": 5}, {}, {"A": 1, "B": 2}, {"B": 5}],
+    [{"A": 1, "AB": 1}, {"A": 1, "AB": 2}, {"A": 1, "AB": 1, "L": list(range(11))}, {"A": 1, "AB": 1, "L": list(range(10)) + ["ten"]}, {"A": 2, "AB": 2}, {"A": 1, "AB": 2}],
 ]
 
 
@@ -279,13 +283,56 @@ def run_script(ctx, gname, program, history, actions, own_exists):
         ctx.sample({"graph": gname, "script": list(actions), "own_exists": own_exists, "executed": script.executed[:12]}, limit=3)
 
 
+def known_finding_reproducer(ctx):
+    """Recorded finding (reported by a round-11 sub-agent, reproduced): a backend that claims an entry exists makes
+    Cached.validate() skip the validation of a dataset whose value would be rejected (option outside its domain); a
+    coalesce around it then believes the member usable, keys() the consumer by that member alone, falls through to the
+    next member at evaluation - and the consumer's own, reliable store returns that value for the next dictionary.
+    Attributed to the finding only if the same history with an honest exists() is correct."""
+    from labrea import Coalesce, Option, dataset
+
+    def history(lying):
+        class Backend(Cache):
+            def __init__(self):
+                self.store = MemoryCache()
+
+            def exists(self, e, o):
+                return True if lying else self.store.exists(e, o)
+
+            def get(self, e, o):
+                return self.store.get(e, o)
+
+            def set(self, e, o, v):
+                self.store.set(e, o, v)
+
+        def inner(a=Option("A", domain=[1, 2])):
+            return ("inner", a)
+
+        inner_ds = dataset(inner, cache=Backend())
+
+        def outer(x=Coalesce(inner_ds, Option("B"))):
+            return x
+
+        outer_ds = dataset(outer)
+        return [observe(outer_ds.evaluate, o) for o in ({"A": 3, "B": 1}, {"A": 3, "B": 2}, {"A": 1, "B": 2}, {"A": 3, "B": 1})]
+
+    want = [("ok", ("i", 1)), ("ok", ("i", 2)), ("ok", ("T", (("s", "inner"), ("i", 1)))), ("ok", ("i", 1))]
+    lying, honest = history(True), history(False)
+    ctx.evaluations += 8
+    if lying != want:
+        ctx.violation("faulty-backend-changes-outcome", f"coalesce(dataset behind a backend whose exists() always says yes, Option('B')) under a cached consumer: {lying}, expected {want}",
+                      {"family": "known-finding", "mechanism": "lying-exists-hides-invalid-coalesce-member" if honest == want else None})
+
+
 def run(ctx):
+    if ctx.shard == 0:
+        known_finding_reproducer(ctx)
     N = 4 if ctx.quick else 6
     combos = list(itertools.product(ACTIONS, repeat=N))
     jobs = []
     for gname, program in GRAPHS.items():
         for h, hist in enumerate(HISTORIES):
-            if (h == 2) != (gname == "overload") or (h == 3) != (gname in FAILING):
+            if (h == 2) != (gname == "overload") or (h == 3) != (gname in FAILING) or (h == 4) != (gname == "prefix-named"):
                 continue
             for own in (False, True) + (("derived",) if gname in ("single", "chain") else ()) + (("delegating",) if gname in ("chain", "callables") else ()):
                 jobs.append((gname, program, hist, own))
@@ -301,7 +348,7 @@ def run(ctx):
     # backends that stay faulty
     k = 0
     for gname, program in GRAPHS.items():
-        hist = HISTORIES[2] if gname == "overload" else HISTORIES[3] if gname in FAILING else HISTORIES[1]
+        hist = HISTORIES[2] if gname == "overload" else HISTORIES[3] if gname in FAILING else HISTORIES[4] if gname == "prefix-named" else HISTORIES[1]
         for mode in ("unreadable", "blind", "amnesic"):
             for after in range(0, 13):
                 for own in (True, False):
@@ -312,13 +359,16 @@ def run(ctx):
     for i in range(ctx.n(1200, 40000)):
         r = case_rng(ctx, i)
         gname = r.choice(list(GRAPHS))
-        hist = HISTORIES[2] if gname == "overload" else HISTORIES[3] if gname in FAILING else r.choice(HISTORIES[:2])
+        hist = HISTORIES[2] if gname == "overload" else HISTORIES[3] if gname in FAILING else HISTORIES[4] if gname == "prefix-named" else r.choice(HISTORIES[:2])
         actions = [r.choice(ACTIONS) if r.random() < 0.5 else "behave" for _ in range(r.choice([8, 16, 40]))]
         run_script(ctx, gname, GRAPHS[gname], hist, actions, r.choice([True, False, "derived", "delegating"]))
 
 
 def replay(ctx, rep):
     w = rep["witness"]
+    if w.get("family") == "known-finding":
+        known_finding_reproducer(ctx)
+        return
     if w.get("family") == "persistent":
         run_persistent(ctx, w["graph"], GRAPHS[w["graph"]], w["history"], w["mode"], w["after"], w["own_exists"])
         return
